@@ -95,6 +95,12 @@ func (c *Conv) Apply(inputs []tensor.Tensor) ([]tensor.Tensor, error) {
 	kernel := inputs[1]
 	bias := inputs[2]
 
+	// The attributes that were not given are derived from the inputs below, and the
+	// kernel shape and the auto_pad paddings always are. Work on a copy of the operator,
+	// such that they are derived again for the inputs of the next call.
+	conv := *c
+	c = &conv
+
 	if len(c.dilations) == 0 {
 		c.setDefaultDilations(x)
 	}
